@@ -141,6 +141,8 @@ class Ctx:
         self.global_cache: Dict[Any, Any] = {}
         self.yielded: List[Any] = []
         self.call_log: List[Any] = []  # calls made through contracts on this path, in order (ghost; see speclib.CALLS)
+        self.top_contract = None
+        self.top_ns = None
         self.entry_measure = None
 
     # ---- fresh symbols
@@ -844,6 +846,7 @@ class Engine:
         if res is not None and res.entry_pc is None:
             res.entry_pc = list(ctx.pc)
             res.entry_axioms = list(ctx.axioms)
+        ctx.top_contract, ctx.top_ns = contract, ns
         ctx.entry_measure = None
         if contract.decreases is not None:
             ctx.entry_measure = tuple(self.run_spec(ctx, contract.decreases, ns))
